@@ -569,7 +569,7 @@ def check(ctx):
     explorer.bfs(drv, depth, agg)
     from mc import purity
     units = purity.plan(level_full_kinds=ctx.pick(("int", "int?", "float", "str", "date", "object"), tuple(purity.KINDS)))
-    for p in core.pmap(purity.unit_purity, units) + core.pmap(purity.unit_nested_copies, [("nested-copies",)]) + core.pmap(purity.unit_region_sources, [("region-sources",)]) + core.pmap(purity.unit_refusal_class, [("refusal-class",)]):
+    for p in core.pmap(purity.unit_purity, units) + core.pmap(purity.unit_nested_copies, [("nested-copies",)]) + core.pmap(purity.unit_region_sources, [("region-sources",)]) + core.pmap(purity.unit_refusal_class, [("refusal-class",)]) + core.pmap(purity.unit_odd_names, [("odd-names",)]) + core.pmap(purity.unit_join_key_kinds, [("join-key-kinds",)]):
         agg.merge(p)
     agg.notes["bound"] = (f"H: depth<={depth} events from each of 4 seed worlds, pool<={pool} objects; "
                           f"E: {len(units)} (operand kind x provenance form x second operand) scenarios x every derivation x every later write")
@@ -593,6 +593,12 @@ def replay(rec):
     if case.get("operand") == "vector of two vectors":
         from mc import purity
         return set(purity.unit_nested_copies(("nested-copies",)).viol)
+    if case.get("join_key_kinds"):
+        from mc import purity
+        return set(purity.unit_join_key_kinds(("join-key-kinds",)).viol)
+    if case.get("odd_names"):
+        from mc import purity
+        return set(purity.unit_odd_names(("odd-names",)).viol)
     if case.get("sharing"):
         from mc import purity
         return set(purity.unit_refusal_class(("refusal-class",)).viol)
